@@ -26,13 +26,16 @@ ASSUMPTIONS = [
     "the strategies passed to one manager are distinct objects (the same object twice is one strategy run twice)",
 ]
 MIN_NONTRIVIAL = {"quick": 150, "thorough": 3000}
-REQUIRED_LABELS = ["path.sequential", "path.forked", "strategies.3+", "earlier_leaves_positions", "interval.gt1", "threads.lt.n", "threads.eq.n"]
+REQUIRED_LABELS = ["path.sequential", "path.forked", "strategies.3+", "earlier_leaves_positions", "interval.gt1", "threads.lt.n", "threads.eq.n", "preconfigured_markets"]
 
 
 @st.composite
 def st_case(draw):
     u = draw(st_universe("loop", max_bars=5, max_ops=6))
     nb = (u["start"] + u["n"] - 1) // u["k"] - u["start"] // u["k"] + 1
+    if draw(st.integers(0, 2)) == 0:
+        # markets that already hold positions when the configuration is handed to the manager
+        u["preconfig"] = draw(st_prog(u["order"], 1, "frozen", 3))
     ns = draw(st.integers(1, 4))
     progs = [u["prog"]] + [draw(st_prog(u["order"], nb, "loop", 6)) for _ in range(ns - 1)]
     order = list(draw(st.permutations(list(range(ns)))))
@@ -86,6 +89,8 @@ def body(case, ctx: Ctx):
         labels.add("interval.gt1")
     if ns >= 3:
         labels.add("strategies.3+")
+    if uc.get("preconfig"):
+        labels.add("preconfigured_markets")
     alone = {}
     for i in range(ns):
         d = f"{base}-alone{i}"
